@@ -1,0 +1,94 @@
+//go:build verif
+// +build verif
+
+package nitro
+
+import (
+	"sync/atomic"
+	"unsafe"
+
+	"github.com/couchbase/nitro/skiplist"
+)
+
+// Verification hooks (build tag `verif`). Pure additions: yield points that
+// call a harness-installed function, and read-only accessors.
+
+// Yield point identifiers passed to the hook. arg is the snapshot number for
+// the snapshot points, the shard for file points, otherwise 0.
+const (
+	VerifPtOpenTested        = 101 // Snapshot.Open between the zero test and the add
+	VerifPtCloseDecremented  = 102 // Snapshot.Close after the decrement
+	VerifPtCloseRetire       = 103 // Snapshot.Close about to retire the snapshot
+	VerifPtDeleteEnter       = 104 // DeleteNode before SetLink(nil)
+	VerifPtDeleteBeforeCAS   = 105 // DeleteNode before the deadSn CAS
+	VerifPtDeleteBeforeFlush = 106 // DeleteNode before FlushSession
+	VerifPtGCBeforeTryLock   = 107 // GC before the try-lock
+	VerifPtGCHandOff         = 108 // collectDead before handing a list to the workers
+	VerifPtStoreMkdir        = 120 // StoreToDisk after a MkdirAll
+	VerifPtStoreOpened       = 121 // StoreToDisk after a shard/delta file was opened
+	VerifPtStoreManifest     = 122 // StoreToDisk after a manifest WriteFile (arg: 0 nitro.json, 1 files, 2 checksums, 3 delta files, 4 delta checksums)
+	VerifPtStoreItem         = 123 // StoreToDisk after WriteItem in the visitor callback
+	VerifPtStoreReturning    = 124 // StoreToDisk deferred closes are about to run
+	VerifPtFileTerminator    = 130 // rawFileWriter.Close after the terminator was buffered
+	VerifPtFileFlushed       = 131 // rawFileWriter.Close after Flush
+	VerifPtFileClosed        = 132 // rawFileWriter.Close after fd.Close
+)
+
+var verifHookPtr unsafe.Pointer // *func(point int, arg uint64)
+
+// VerifSetHook installs (or, with nil, removes) the harness callback.
+func VerifSetHook(fn func(point int, arg uint64)) {
+	if fn == nil {
+		atomic.StorePointer(&verifHookPtr, nil)
+		return
+	}
+	atomic.StorePointer(&verifHookPtr, unsafe.Pointer(&fn))
+}
+
+func verifYield(point int, arg uint64) {
+	if h := (*func(int, uint64))(atomic.LoadPointer(&verifHookPtr)); h != nil {
+		(*h)(point, arg)
+	}
+}
+
+// VerifStore exposes the main skiplist of the instance.
+func (m *Nitro) VerifStore() *skiplist.Skiplist {
+	return m.store
+}
+
+// VerifItemSn returns the born and dead snapshot numbers of an item.
+func VerifItemSn(itm *Item) (born, dead uint32) {
+	return itm.bornSn, atomic.LoadUint32(&itm.deadSn)
+}
+
+// VerifSnapshotSn returns the snapshot number and current reference count.
+func VerifSnapshotSn(s *Snapshot) (sn uint32, refs int32) {
+	return s.sn, atomic.LoadInt32(&s.refCount)
+}
+
+// VerifNewItem allocates a Go-heap item with the given data.
+func (m *Nitro) VerifNewItem(data []byte) *Item {
+	return m.newItem(data, false)
+}
+
+// VerifNewFileWriter returns a backup file writer of the configured type.
+func (m *Nitro) VerifNewFileWriter() FileWriter {
+	return m.newFileWriter(m.fileType)
+}
+
+// VerifNewFileReader returns a backup file reader for a format version.
+func (m *Nitro) VerifNewFileReader(ver int) FileReader {
+	return m.newFileReader(m.fileType, ver)
+}
+
+// VerifGCState reports collector state: retired-but-uncollected snapshots,
+// whether a collection pass is running, and the channel backlogs.
+func (m *Nitro) VerifGCState() (retired int, gcRunning bool, gcQueued int, freeQueued int) {
+	return m.gcsnapshots.GetStats().NodeCount, atomic.LoadInt32(&m.isGCRunning) != 0,
+		len(m.gcchan), len(m.freechan)
+}
+
+// VerifItemFromNode returns the item stored in a node of the main store.
+func VerifItemFromNode(n *skiplist.Node) *Item {
+	return (*Item)(n.Item())
+}
